@@ -69,9 +69,11 @@ def _cases(args):
                     continue
                 valid = (ck is None or ck.lower() == true) and (sz is None or sz == len(data))
                 for prior in ("absent", "unreferenced", "referenced"):
-                    for entry in ("store", "store+same-additional", "store+other-additional", "dii"):
+                    for entry in ("store", "store+same-additional", "store+other-additional", "dii", "store:gzip-stream"):
                         if entry == "dii" and ck is None:
                             continue
+                        if entry == "store:gzip-stream" and (prior != "absent" or sp != sps[0]):
+                            continue  # the data argument is a stream whose .name is a file of ANOTHER length
                         if entry.startswith("store+") and (ck is None or prior != "absent" and TIER == "quick"):
                             continue
                         restore(root, _TREES[(c, prior)])
@@ -89,7 +91,16 @@ def _cases(args):
                                     kw.update(checksum=ck, checksum_algorithm=sp)
                                 if sz is not None:
                                     kw.update(expected_object_size=sz)
-                                s.store_object("new", path, **kw)
+                                if entry == "store:gzip-stream":
+                                    import gzip
+                                    gpath = os.path.join(common.scratch(), "c06_%s_%s.gz" % (c, algo))
+                                    if not os.path.exists(gpath):
+                                        with gzip.open(gpath, "wb") as g:
+                                            g.write(data)
+                                    with gzip.open(gpath, "rb") as g:
+                                        s.store_object("new", g, **kw)
+                                else:
+                                    s.store_object("new", path, **kw)
                             else:
                                 md = s.store_object(None, path)
                                 s.delete_if_invalid_object(md, ck, sp, sz)
